@@ -279,7 +279,7 @@ func configureBasicDownloadAdapter(m *concreteManifest) {
 
 func (a *basicDownloadAdapter) makeRequest(t *Transfer, req *http.Request) (*http.Response, error) {
 	res, err := a.doHTTP(t, req)
-	if errors.IsAuthError(err) && len(req.Header.Get("Authorization")) == 0 {
+	if errors.IsAuthError(err) && len(req.Header.Get("Authorization")) == 0 && !t.Authenticated {
 		return a.makeRequest(t, req)
 	}
 
